@@ -326,6 +326,12 @@ def skipCommentLines : Nat → Bytes → Res Bytes
       if b = 0 then .error .hang else skipCommentLines fuel (s.drop b)
     else .ok s
 
+/-- the nesting bound handed to `skipNextPrintedArg` by `countLoop`: the range tail re-skips the
+    PREVIOUS argument `recent`, which may be nested deeper than the current text is long, so the
+    bound covers both texts (the C function recurses without a bound) -/
+def checkFuel (src : Bytes) (recent : Option Bytes) : Nat :=
+  max src.length (match recent with | some r => r.length | none => 0) + 2
+
 /-- the loop of `rtosc_count_printed_arg_vals` -/
 def countLoop : Nat → Option Bytes → Option Bytes → Int → Res Int
   | 0, _, _, _ => .error .fuel
@@ -334,7 +340,7 @@ def countLoop : Nat → Option Bytes → Option Bytes → Int → Res Int
     | none => .ok (-num)
     | some src =>
       if hd src ≠ 0 ∧ hd src ≠ 47 then do
-        let r ← skipNextPrintedArg (src.length + 2) src 0 recent true false
+        let r ← skipNextPrintedArg (checkFuel src recent) src 0 recent true false
         let src1 : Option Bytes ← match r.src with
           | none => pure none
           | some s => do
